@@ -62,6 +62,23 @@ def families(tier, rng):
     return fam
 
 
+def twin_sessions():
+    """Two control sessions, one of them not (or not yet, or no longer) logged in, sending the same command in the same instant -
+    in both orders, and one to three event-loop iterations apart."""
+    out = []
+    states = {"no-user": [], "needs-pass": [["send", 1, "USER u1"]], "bad-pass": [["send", 1, "USER u1"], ["send", 1, "PASS nope"]],
+              "unknown-user": [["send", 1, "USER nobody"]], "relogin-pending": [["send", 1, "USER u2"], ["send", 1, "USER u1"]]}
+    verbs = ["PWD", "MKD zz", "CWD d", "PASV", "EPSV", "MLST f", "DELE f", "RNFR f", "TYPE I", "RMD d", "CDUP", "ABOR"]
+    for sname, pre in states.items():
+        for v in verbs:
+            for gap in (0, 1, 2, 3):
+                for order in ((1, 2), (2, 1)):
+                    st = [["connect", 1]] + pre + [["connect", 2], ["send", 2, "USER u2"], ["nq", ["send", order[0], v]], ["iter", gap],
+                          ["nq", ["send", order[1], v]], ["tick", 0], ["send", 1, "PWD"], ["send", 2, "PWD"], ["send", 1, "MLST f"]]
+                    out.append(st)
+    return out
+
+
 def run(tier, seed):
     chk = report.Check("C03", tier, seed)
     rng = random.Random(seed)
@@ -76,10 +93,12 @@ def run(tier, seed):
     parked = [s for f, s in fam if f == "parked"]
     sub = scheds if tier != "quick" else scheds[: len(KEYS) ** 2 + len(KEYS) + 1] + scheds[-600 - len(parked):]
     corecheck.validate(chk, cfg2, gen.STD_TREE, sub, label="hist:noanon")
+    tw = twin_sessions()
+    corecheck.validate(chk, gen.std_cfg(ns=2, users=[u for u in gen.STD_USERS if u["id"] != "anon"]), gen.STD_TREE, tw if tier != "quick" else tw[::2], label="twins")
     chk.cov["rule"] = ("all command histories of length <= 2 and seeded ones of length 3..6 over %d command kinds (every login "
                        "variant x every guarded verb incl. transfers with a data connection), each followed by probes; the trace "
                        "specification rejects any backend call, listener, worker or tree/cwd change made while not logged in; "
-                       "distinct = distinct schedules" % len(KEYS))
+                       "two sessions, one not logged in, sending the same command in the same instant; distinct = distinct schedules" % len(KEYS))
     chk.cov["distinct_nontrivial"] = len({repr(s) for s in scheds}) + len({repr(s) for s in sub})
     chk.sample(scheds[700])
     return chk.finish()
